@@ -288,7 +288,7 @@ SERIES_TRANSFORMER_ENUM = [
     {"kind": "imputer", "method": "nearest"}, {"kind": "imputer", "method": "ffill"}, {"kind": "imputer", "method": "random", "random_state": 3},
     {"kind": "imputer", "method": "mean", "missing_values": -999.0}, {"kind": "imputer", "method": "linear", "missing_values": -999.0},
     {"kind": "hampel", "window_length": 5, "n_sigma": 2}, {"kind": "hampel", "window_length": 4, "n_sigma": 1},
-    {"kind": "boxcox", "method": "mle"}, {"kind": "log"}, {"kind": "detrend", "degree": 1},
+    {"kind": "boxcox", "method": "mle"}, {"kind": "log"}, {"kind": "detrend", "degree": 1}, {"kind": "detrend", "degree": 1, "default": True},
     {"kind": "deseason", "sp": 3, "model": "additive"}, {"kind": "deseason", "sp": 4, "model": "multiplicative"},
     {"kind": "cond_deseason", "sp": 3, "model": "additive"}, {"kind": "scaler", "which": "standard"}, {"kind": "scaler", "which": "minmax"},
     {"kind": "passthrough", "inner": {"kind": "log"}, "passthrough": False}, {"kind": "passthrough", "inner": {"kind": "log"}, "passthrough": True},
@@ -307,6 +307,7 @@ series_transformer_specs = st.one_of(
     st.builds(lambda m: {"kind": "boxcox", "method": m}, st.sampled_from(["mle", "pearsonr"])),
     st.just({"kind": "log"}),
     st.builds(lambda d: {"kind": "detrend", "degree": d}, st.integers(0, 3)),
+    st.just({"kind": "detrend", "degree": 1, "default": True}),
     st.builds(lambda sp, m: {"kind": "deseason", "sp": sp, "model": m}, st.integers(1, 6), st.sampled_from(["additive", "multiplicative"])),
     st.builds(lambda sp, m: {"kind": "cond_deseason", "sp": sp, "model": m}, st.integers(2, 6), st.sampled_from(["additive", "multiplicative"])),
     st.builds(lambda w: {"kind": "scaler", "which": w}, st.sampled_from(["standard", "minmax"])),
